@@ -49,6 +49,8 @@ Clauses(e) ==
      << "C02.write_discipline", e.changed_ok /\ (e.writes # << >> => IsRepair(e)) >>,
      << "C02.listed_means_written", IsRepair(e) => e.listed_ok >>,
      << "C02.nothing_else_changed", e.outside = << >> >>,
+     << "C02.create_touches_only_archive",
+        e.op = "create" => (e.created_unexpected = << >> /\ e.changed_by_create = << >> /\ e.created # << >>) >>,
      << "C02.verify_modifies_nothing", IsVerify(e) => (e.writes = << >> /\ e.outside = << >>) >>,
      << "C03.verify_returns_result", IsVerify(e) => e.res.err = "" >>,
      << "C03.usable_sound", (IsVerify(e) /\ e.res.err = "") => e.res.usable <= e.nocc >>,
